@@ -6,7 +6,10 @@ import (
 	"crypto/sha256"
 	"fmt"
 	"math/big"
+	"sort"
 	"strings"
+
+	hpke "github.com/cisco/go-hpke"
 
 	"github.com/cloudflare/circl/blindsign/blindrsa"
 	"github.com/cloudflare/pat-go/ecdsa"
@@ -212,11 +215,73 @@ func runC07(c *Ctx) {
 			// request key replaced by another client's and re-signed consistently: AAD no longer matches
 			eval("requestKey:other+resigned", resignWithKey(req, other), nil, nil)
 		}
+		// crafted inner requests: well sealed and signed, but with unusual plaintexts
+		{
+			cl := newT3Client(r)
+			bm := r.Bytes(256)
+			bm[0] = 0
+			inner := func(keyID byte, blinded, padded []byte) []byte {
+				out := append([]byte{keyID}, blinded...)
+				out = append(out, byte(len(padded)>>8), byte(len(padded)))
+				return append(out, padded...)
+			}
+			reg := []byte(names[0])
+			pad32 := func(b []byte) []byte { return append(append([]byte{}, b...), make([]byte, 32-len(b)%32)...) }
+			cases := map[string][]byte{
+				"inner:honest-shape":        inner(1, bm, pad32(reg)),
+				"inner:empty-origin":        inner(1, bm, nil),
+				"inner:all-zero-origin":     inner(1, bm, make([]byte, 32)),
+				"inner:unpadded-registered": inner(1, bm, reg),
+				"inner:one-zero":            inner(1, bm, []byte{0}),
+				"inner:nul-then-text":       inner(1, bm, pad32(append(append([]byte{}, reg...), append([]byte{0}, []byte("evil")...)...))),
+				"inner:leading-zero":        inner(1, bm, pad32(append([]byte{0}, reg...))),
+				"inner:trailing-bytes":      append(inner(1, bm, pad32(reg)), 1, 2, 3),
+				"inner:truncated-257":       inner(1, bm, nil)[:257],
+				"inner:truncated-100":       bm[:100],
+				"inner:empty":               {},
+				"inner:length-overrun":      append(append([]byte{1}, bm...), 0, 40, 1, 2),
+				"inner:blinded-too-large":   inner(1, bytes.Repeat([]byte{0xff}, 256), pad32(reg)),
+				"inner:long-origin":         inner(1, bm, pad32(bytes.Repeat([]byte{'a'}, 1000))),
+			}
+			var keys []string
+			for k := range cases {
+				keys = append(keys, k)
+			}
+			sort.Strings(keys)
+			for _, k := range keys {
+				req := craftRequest(e, cl, cases[k])
+				args := append([]string{hx(req)}, e.oracleCols(req)...)
+				out := c.Run("c07.eval", args...)
+				c.Count(k)
+				in := map[string]any{"kind": k, "env": ei, "request": hx(req), "impl": out}
+				c.Direct(out != "panic" && out != "err-with-output", "Evaluate panicked or returned output together with an error", in)
+				served := strings.HasPrefix(out, "ok")
+				wantServed := k == "inner:honest-shape" || k == "inner:unpadded-registered" || k == "inner:trailing-bytes"
+				c.Direct(served == wantServed, fmt.Sprintf("crafted inner request: served=%v, expected %v (only the registered origin may be served)", served, wantServed), in)
+			}
+		}
 		// garbage
 		for i := 0; i < c.Pick(20, 300); i++ {
 			eval("random", r.Bytes(r.IntN(600)), nil, nil)
 		}
 	}
+}
+
+// craftRequest builds a correctly sealed and signed type-3 request around an arbitrary inner plaintext
+// (anyone can encrypt to the issuer's public name key and sign with a request key of their own).
+func craftRequest(e *c07Env, cl *t3Client, innerPlain []byte) []byte {
+	nk := e.issuer.NameKey().Marshal()
+	suite, err := hpke.AssembleCipherSuite(hpke.DHKEM_X25519, hpke.KDF_HKDF_SHA256, hpke.AEAD_AESGCM128)
+	must(err)
+	pk, err := suite.KEM.DeserializePublicKey(nk[3:35])
+	must(err)
+	enc, ctx, err := hpke.SetupBaseS(suite, theRand, pk, []byte("TokenRequest"))
+	must(err)
+	rk := elliptic.MarshalCompressed(elliptic.P384(), cl.reqKey.X, cl.reqKey.Y)
+	aad := append(append(append(append([]byte{}, e.aadPrefix...), 0, 3), rk...), e.configID...)
+	ct := append(append([]byte{}, enc...), ctx.Seal(aad, innerPlain)...)
+	m := signedRequest(cl.sk, cl.blindKey, rk, e.configID, ct)
+	return m.Marshal()
 }
 
 // sigTwin replaces the trailing r‖s by r‖(N-s).
